@@ -67,7 +67,7 @@ func (d *digester) walk(v reflect.Value, depth int) {
 				return
 			}
 		}
-		k := visitKey{v.Pointer(), v.Type()}
+		k := visitKey{v.Pointer(), v.Type(), nil}
 		if n, ok := d.seen[k]; ok {
 			d.put("^%d;", n)
 			return
